@@ -6,18 +6,18 @@ Setting of every theorem: `s0` is the machine built by `MemSys.init M prealloc i
 (one limiter with limit `M`, one arena preallocated with `prealloc` bytes, one empty `LimitedVec` of
 items of `itemSize` bytes), `ops` is an ARBITRARY list of operations
 (append / init_with / shift on the arena, push / drain on the vec).
-Since the repair of finding F5 (/repo 6a70b0c: `Arena::new` rolls back a preallocation that does not
-fit) the accounting, bound and no-panic theorems hold for EVERY `prealloc` (`C10_prealloc_dropped`);
-only `C10_monotone` still needs a side condition (`C10_monotone_prealloc_counterexample`).
+Since the repair of finding F5 (/repo 6823fd9: `Arena::new` clamps the preallocation to the limit and
+rolls back a reservation that fails) every theorem holds for EVERY `prealloc`
+(`C10_prealloc_clamped`, `C10_prealloc_unreservable`), including `C10_monotone`.
 -/
 import LolHtml.Lemmas.Memory
 
 namespace LolHtml.Thm.C10
 open LolHtml.Model.Memory
 
-/-- The machine with a preallocation that fits. -/
-def fitted (M prealloc i : Nat) : MemSys :=
-  { lim := { usage := prealloc, max := M }, arena := { cap := prealloc, data := [] },
+/-- The machine whose buffer starts with `size` bytes reserved and charged. -/
+def fitted (M size i : Nat) : MemSys :=
+  { lim := { usage := size, max := M }, arena := { cap := size, data := [] },
     vec := LimitedVec.new i }
 
 /-- The machine whose preallocation was dropped. -/
@@ -25,43 +25,46 @@ def dropped (M i : Nat) : MemSys :=
   { lim := { usage := 0, max := M }, arena := { cap := 0, data := [] }, vec := LimitedVec.new i }
 
 /-- `MemSys.init` in closed form: the constructor never fails and never panics (for a `usize`
-    preallocation); a preallocation that fits the limit and `isize::MAX` is charged and reserved,
-    any other is rolled back. -/
+    preallocation); `min prealloc M` bytes are charged and reserved, unless that exceeds `isize::MAX`
+    (the reservation fails and the charge is rolled back). -/
 theorem init_eq (M prealloc i : Nat) (hu : prealloc ≤ usizeMax) :
     MemSys.init M prealloc i =
-      .ok (if prealloc ≤ M ∧ prealloc ≤ isizeMax then fitted M prealloc i else dropped M i) := by
-  have h1 : ¬ usizeMax < prealloc := by omega
-  by_cases hM : M < prealloc
-  · have : ¬ (prealloc ≤ M ∧ prealloc ≤ isizeMax) := by omega
-    simp [MemSys.init, Arena.new, Limiter.new, Limiter.increase, Limiter.decrease, h1, hM, this,
+      .ok (if min prealloc M ≤ isizeMax then fitted M (min prealloc M) i else dropped M i) := by
+  have h1 : ¬ usizeMax < min prealloc M := by omega
+  have h2 : ¬ M < min prealloc M := by omega
+  by_cases hI : isizeMax < min prealloc M
+  · have : ¬ min prealloc M ≤ isizeMax := by omega
+    simp [MemSys.init, Arena.new, Limiter.new, Limiter.increase, Limiter.decrease, h1, h2, hI, this,
       dropped]
-  · by_cases hI : isizeMax < prealloc
-    · have : ¬ (prealloc ≤ M ∧ prealloc ≤ isizeMax) := by omega
-      simp [MemSys.init, Arena.new, Limiter.new, Limiter.increase, Limiter.decrease, h1, hM, hI,
-        this, dropped]
-    · have : prealloc ≤ M ∧ prealloc ≤ isizeMax := by omega
-      simp [MemSys.init, Arena.new, Limiter.new, Limiter.increase, h1, hM, hI, this, fitted]
+  · have : min prealloc M ≤ isizeMax := by omega
+    simp [MemSys.init, Arena.new, Limiter.new, Limiter.increase, h1, h2, hI, this, fitted]
 
-/-- A successful construction was given a `usize`. -/
+/-- A successful construction was given a `usize` (or a limit that is one). -/
 theorem init_usize {M prealloc i : Nat} {s0 : MemSys} (hinit : MemSys.init M prealloc i = .ok s0) :
-    prealloc ≤ usizeMax := by
-  by_cases h : usizeMax < prealloc
+    min prealloc M ≤ usizeMax := by
+  by_cases h : usizeMax < min prealloc M
   · simp [MemSys.init, Arena.new, Limiter.new, Limiter.increase, h] at hinit
   · omega
 
 theorem init_cases {M prealloc i : Nat} {s0 : MemSys} (hinit : MemSys.init M prealloc i = .ok s0) :
-    (prealloc ≤ M ∧ prealloc ≤ isizeMax ∧ s0 = fitted M prealloc i) ∨
-    ((M < prealloc ∨ isizeMax < prealloc) ∧ s0 = dropped M i) := by
-  rw [init_eq M prealloc i (init_usize hinit)] at hinit
-  split at hinit
-  · rename_i h; cases hinit; exact Or.inl ⟨h.1, h.2, rfl⟩
-  · rename_i h; cases hinit; exact Or.inr ⟨by omega, rfl⟩
+    (min prealloc M ≤ isizeMax ∧ s0 = fitted M (min prealloc M) i) ∨
+    (isizeMax < min prealloc M ∧ s0 = dropped M i) := by
+  have h0 := init_usize hinit
+  have h1 : ¬ usizeMax < min prealloc M := by omega
+  have h2 : ¬ M < min prealloc M := by omega
+  by_cases hI : isizeMax < min prealloc M
+  · simp [MemSys.init, Arena.new, Limiter.new, Limiter.increase, Limiter.decrease, h1, h2, hI] at hinit
+    cases hinit
+    exact Or.inr ⟨hI, rfl⟩
+  · simp [MemSys.init, Arena.new, Limiter.new, Limiter.increase, h1, h2, hI] at hinit
+    cases hinit
+    exact Or.inl ⟨by omega, rfl⟩
 
 /-- The initial machine satisfies every invariant used below — for EVERY preallocation. -/
 theorem init_good {M prealloc i : Nat} {s0 : MemSys}
     (hinit : MemSys.init M prealloc i = .ok s0) : Good M i s0 ∧ Clean s0 := by
   have hs : isizeMax = 9223372036854775807 := rfl
-  rcases init_cases hinit with ⟨h1, h2, rfl⟩ | ⟨_, rfl⟩
+  rcases init_cases hinit with ⟨h1, rfl⟩ | ⟨_, rfl⟩
   · refine ⟨⟨⟨?_, ?_, ?_, ?_, ?_⟩, rfl, rfl, ?_, ?_⟩, ⟨⟨?_, ?_, ?_, ?_, ?_⟩, ?_, ?_⟩⟩ <;>
       simp [fitted, MemSys.allocated, LimitedVec.new, Arena.len] <;> omega
   · refine ⟨⟨⟨?_, ?_, ?_, ?_, ?_⟩, rfl, rfl, ?_, ?_⟩, ⟨⟨?_, ?_, ?_, ?_, ?_⟩, ?_, ?_⟩⟩ <;>
@@ -73,24 +76,33 @@ theorem C10_constructor_total (M prealloc i : Nat) (hu : prealloc ≤ usizeMax) 
     ∃ s0, MemSys.init M prealloc i = .ok s0 :=
   ⟨_, init_eq M prealloc i hu⟩
 
-/-- **C10_prealloc_dropped** (the repair of finding F5). A preallocation that does not fit the limit
-    (or exceeds `isize::MAX`) leaves the accounted usage at 0 and the buffer capacity at 0: nothing
-    that was not allocated stays charged. -/
-theorem C10_prealloc_dropped (M prealloc i : Nat) (hu : prealloc ≤ usizeMax)
-    (h : M < prealloc ∨ isizeMax < prealloc) :
-    MemSys.init M prealloc i = .ok (dropped M i) ∧ (dropped M i).lim.usage = 0 ∧
-    (dropped M i).arena.cap = 0 ∧ (dropped M i).allocated = 0 := by
-  rw [init_eq M prealloc i hu]
-  have : ¬ (prealloc ≤ M ∧ prealloc ≤ isizeMax) := by omega
-  simp [this, dropped, MemSys.allocated, LimitedVec.new]
-
-/-- … and a preallocation that fits is charged and reserved exactly. -/
+/-- **C10_prealloc_fitted.** A preallocation that fits the limit is charged and reserved exactly. -/
 theorem C10_prealloc_fitted (M prealloc i : Nat) (h1 : prealloc ≤ M) (h2 : prealloc ≤ isizeMax) :
     MemSys.init M prealloc i = .ok (fitted M prealloc i) := by
   have hs : isizeMax = 9223372036854775807 := rfl
   have hu : usizeMax = 18446744073709551615 := rfl
-  rw [init_eq M prealloc i (by omega)]
-  simp [h1, h2]
+  rw [init_eq M prealloc i (by omega), Nat.min_eq_left h1]
+  simp [h2]
+
+/-- **C10_prealloc_clamped** (the repair of finding F5). A preallocation larger than the limit is
+    clamped to it: construction leaves `usage = arena.cap = M` — never more than the limit, and
+    nothing charged that is not held. -/
+theorem C10_prealloc_clamped (M prealloc i : Nat) (hu : prealloc ≤ usizeMax) (h1 : M < prealloc)
+    (h2 : M ≤ isizeMax) :
+    MemSys.init M prealloc i = .ok (fitted M M i) ∧ (fitted M M i).lim.usage = M ∧
+    (fitted M M i).arena.cap = M ∧ (fitted M M i).allocated = M := by
+  rw [init_eq M prealloc i hu, Nat.min_eq_right (Nat.le_of_lt h1)]
+  simp [h2, fitted, MemSys.allocated, LimitedVec.new]
+
+/-- **C10_prealloc_unreservable.** If the clamped preallocation exceeds `isize::MAX` the reservation
+    fails and the charge is rolled back: `usage = 0`, capacity 0. -/
+theorem C10_prealloc_unreservable (M prealloc i : Nat) (hu : prealloc ≤ usizeMax)
+    (h : isizeMax < min prealloc M) :
+    MemSys.init M prealloc i = .ok (dropped M i) ∧ (dropped M i).lim.usage = 0 ∧
+    (dropped M i).arena.cap = 0 := by
+  rw [init_eq M prealloc i hu]
+  have : ¬ min prealloc M ≤ isizeMax := by omega
+  simp [this, dropped]
 
 /-! ### C10_accounting -/
 
@@ -211,32 +223,44 @@ theorem C10_panic_sites (s : MemSys) (op : Op) (p : Panic) (h : s.step op = .pan
 
 /-! ### C10_monotone -/
 
-/-- **C10_monotone.** A run in which every operation succeeds under `M` also succeeds under any
-    `M' ≥ M`, with the same results and the same states apart from the stored limit — provided the
-    preallocation is treated alike under both limits (it fits `M`, or it does not even fit `M'`).
-    Without that side condition the statement is false: `C10_monotone_prealloc_counterexample`. -/
+/-- The two initial machines of the same configuration under limits `M ≤ M'` are in the simulation
+    relation, whatever the preallocation. -/
+theorem init_sim {M M' prealloc i : Nat} {s0 s0' : MemSys}
+    (hinit : MemSys.init M prealloc i = .ok s0) (hinit' : MemSys.init M' prealloc i = .ok s0')
+    (hM : M ≤ M') (hU : M' ≤ usizeMax) : Sim s0 s0' := by
+  have hs : isizeMax = 9223372036854775807 := rfl
+  rcases init_cases hinit with ⟨h1, rfl⟩ | ⟨h1, rfl⟩ <;>
+    rcases init_cases hinit' with ⟨h1', rfl⟩ | ⟨h1', rfl⟩ <;>
+    constructor <;> simp only [fitted, dropped] <;> omega
+
+/-- **C10_monotone.** For every preallocation: a run in which every operation succeeds under `M`
+    also succeeds under any `M' ≥ M`, with the same results, the same buffered bytes and the same
+    stack after every operation. (The accounting may differ — under the larger limit more of the
+    preallocation is reserved — but the final states stay in the simulation relation `Sim`:
+    headroom and affordable buffer length under `M'` are at least those under `M`.) -/
 theorem C10_monotone {M M' prealloc i : Nat} {s0 : MemSys}
-    (hinit : MemSys.init M prealloc i = .ok s0)
-    (hM : M ≤ M') (hsame : prealloc ≤ M ∨ M' < prealloc ∨ isizeMax < prealloc)
-    (ops : List Op) (hok : s0.AllOk ops) :
+    (hinit : MemSys.init M prealloc i = .ok s0) (hu : prealloc ≤ usizeMax)
+    (hM : M ≤ M') (hU : M' ≤ usizeMax) (ops : List Op) (hok : s0.AllOk ops) :
+    ∃ s0', MemSys.init M' prealloc i = .ok s0' ∧ s0'.AllOk ops ∧
+      (s0'.run ops).map view = (s0.run ops).map view ∧
+      (s0'.final ops).arena.data = (s0.final ops).arena.data ∧
+      (s0'.final ops).vec = (s0.final ops).vec := by
+  obtain ⟨s0', hinit'⟩ := C10_constructor_total M' prealloc i hu
+  obtain ⟨r1, r2, r3⟩ := MemSys.allOk_sim ops (init_sim hinit hinit' hM hU) hok
+  exact ⟨s0', hinit', r1, r3, r2.data, r2.vec⟩
+
+/-- **C10_monotone, identical states.** When the preallocation fits the smaller limit, the two runs
+    go through the same states apart from the stored limit. -/
+theorem C10_monotone_same_states {M M' prealloc i : Nat} {s0 : MemSys}
+    (hinit : MemSys.init M prealloc i = .ok s0) (hp : prealloc ≤ M) (hp2 : prealloc ≤ isizeMax)
+    (hM : M ≤ M') (ops : List Op) (hok : s0.AllOk ops) :
     ∃ s0', MemSys.init M' prealloc i = .ok s0' ∧ s0'.AllOk ops ∧
       s0'.final ops = (s0.final ops).withMax M' ∧
       s0'.run ops = (s0.run ops).map (fun x => (x.1, x.2.withMax M')) := by
-  have hu := init_usize hinit
-  rcases init_cases hinit with ⟨h1, h2, rfl⟩ | ⟨h1, rfl⟩
-  · refine ⟨_, C10_prealloc_fitted M' prealloc i (by omega) h2, ?_⟩
-    exact MemSys.allOk_mono ops (s := fitted M prealloc i) hM hok
-  · refine ⟨_, (C10_prealloc_dropped M' prealloc i hu (by omega)).1, ?_⟩
-    exact MemSys.allOk_mono ops (s := dropped M i) hM hok
-
-/-- **Monotonicity fails across the preallocation size** (consequence of the F5 repair, confirmed on
-    the real code by lanes `mem` and `memrw`): with `prealloc = 131`, items of 1 byte, the run
-    `append 2 bytes; push` succeeds under `M = 130` (the preallocation is dropped: usage 2, then
-    2 + 128 = 130) and fails under the LARGER limit `M = 131` (the preallocation is charged: 131 + 128). -/
-theorem C10_monotone_prealloc_counterexample :
-    ∃ s s', MemSys.init 130 131 1 = .ok s ∧ s.AllOk [.append [1, 2], .push] ∧
-      MemSys.init 131 131 1 = .ok s' ∧ ¬ s'.AllOk [.append [1, 2], .push] :=
-  ⟨dropped 130 1, fitted 131 131 1, by decide, by decide, by decide, by decide⟩
+  rw [C10_prealloc_fitted M prealloc i hp hp2] at hinit
+  cases hinit
+  refine ⟨_, C10_prealloc_fitted M' prealloc i (by omega) hp2, ?_⟩
+  exact MemSys.allOk_mono ops (s := fitted M prealloc i) hM hok
 
 /-! ### C10_deterministic -/
 
@@ -255,19 +279,16 @@ theorem C10_deterministic (M prealloc i : Nat) (ops : List Op)
 /-- `TransformStream::new`: the initial buffer state satisfies the invariant for every preallocation. -/
 theorem ts_new_inv {M prealloc : Nat} {t0 : TS} (hnew : TS.new M prealloc = .ok t0) :
     TSInv M t0 ∧ t0.hasBufferedData = false := by
-  by_cases hu : usizeMax < prealloc
+  have h2 : ¬ M < min prealloc M := by omega
+  by_cases hu : usizeMax < min prealloc M
   · simp [TS.new, Arena.new, Limiter.new, Limiter.increase, hu] at hnew
-  · by_cases hM : M < prealloc
-    · simp [TS.new, Arena.new, Limiter.new, Limiter.increase, Limiter.decrease, hu, hM] at hnew
+  · by_cases hI : isizeMax < min prealloc M
+    · simp [TS.new, Arena.new, Limiter.new, Limiter.increase, Limiter.decrease, hu, h2, hI] at hnew
       cases hnew
       exact ⟨⟨by simp [Arena.len], by simp, by simp, rfl⟩, rfl⟩
-    · by_cases hI : isizeMax < prealloc
-      · simp [TS.new, Arena.new, Limiter.new, Limiter.increase, Limiter.decrease, hu, hM, hI] at hnew
-        cases hnew
-        exact ⟨⟨by simp [Arena.len], by simp, by simp, rfl⟩, rfl⟩
-      · simp [TS.new, Arena.new, Limiter.new, Limiter.increase, hu, hM, hI] at hnew
-        cases hnew
-        exact ⟨⟨by simp [Arena.len], by simp, by simp; omega, rfl⟩, rfl⟩
+    · simp [TS.new, Arena.new, Limiter.new, Limiter.increase, hu, h2, hI] at hnew
+      cases hnew
+      exact ⟨⟨by simp [Arena.len], by simp, by simp; omega, rfl⟩, rfl⟩
 
 /-- **C10_write_retention.** For every limit and every preallocation, for every sequence of writes
     `ws` that all succeed, whatever the parser answers (`consumed`, only assumed `≤` the chunk length):
@@ -327,12 +348,23 @@ example :
   decide
 
 
-/-- the default preallocation under a tiny limit (the former F5 witness): dropped, then the buffer
-    is allocated on demand and the limit is enforced by `append` as usual -/
+/-- the default preallocation under a tiny limit (the former F5 witness): clamped to the limit; the
+    10 preallocated bytes are usable, the 11th fails as usual -/
 example :
-    MemSys.init 10 1024 8 = .ok ⟨⟨0, 10⟩, ⟨0, []⟩, ⟨0, 0, 8⟩⟩ ∧
-    (⟨⟨0, 10⟩, ⟨0, []⟩, ⟨0, 0, 8⟩⟩ : MemSys).run [.append [1], .append [2, 3, 4, 5, 6, 7, 8, 9, 10, 11]] =
-      [(.ok, ⟨⟨1, 10⟩, ⟨1, [1]⟩, ⟨0, 0, 8⟩⟩), (.err 10, ⟨⟨11, 10⟩, ⟨1, [1]⟩, ⟨0, 0, 8⟩⟩)] := by
+    MemSys.init 10 1024 8 = .ok ⟨⟨10, 10⟩, ⟨10, []⟩, ⟨0, 0, 8⟩⟩ ∧
+    (⟨⟨10, 10⟩, ⟨10, []⟩, ⟨0, 0, 8⟩⟩ : MemSys).run [.append [1, 2, 3, 4, 5, 6, 7, 8, 9, 10], .append [11]] =
+      [(.ok, ⟨⟨10, 10⟩, ⟨10, [1, 2, 3, 4, 5, 6, 7, 8, 9, 10]⟩, ⟨0, 0, 8⟩⟩),
+       (.err 1, ⟨⟨11, 10⟩, ⟨10, [1, 2, 3, 4, 5, 6, 7, 8, 9, 10]⟩, ⟨0, 0, 8⟩⟩)] := by
+  decide
+
+/-- `C10_monotone` with different initial capacities (prealloc 20: 12 reserved under M = 12, 20 under
+    M' = 30): the run succeeds under both, the accounting differs, data and stack agree -/
+example :
+    MemSys.init 12 20 1 = .ok ⟨⟨12, 12⟩, ⟨12, []⟩, ⟨0, 0, 1⟩⟩ ∧
+    MemSys.init 30 20 1 = .ok ⟨⟨20, 30⟩, ⟨20, []⟩, ⟨0, 0, 1⟩⟩ ∧
+    (⟨⟨12, 12⟩, ⟨12, []⟩, ⟨0, 0, 1⟩⟩ : MemSys).AllOk [.initWith [1, 2, 3], .shift 1, .append [4]] ∧
+    (⟨⟨20, 30⟩, ⟨20, []⟩, ⟨0, 0, 1⟩⟩ : MemSys).final [.initWith [1, 2, 3], .shift 1, .append [4]] =
+      ⟨⟨20, 30⟩, ⟨20, [2, 3, 4]⟩, ⟨0, 0, 1⟩⟩ := by
   decide
 
 /-- a run with a failure in the middle: the failed charge (128) stays, later ops still run -/
